@@ -7,6 +7,7 @@ import (
 	"go/types"
 	"sort"
 	"strings"
+	"sync"
 
 	"jetverif/an"
 )
@@ -45,7 +46,67 @@ func init() {
 }
 
 func isPoolCall(info *types.Info, call *ast.CallExpr, method string) bool {
-	return an.CalleeName(info, call) == "(*sync.Pool)."+method && strings.Contains(an.Str(call.Fun), "pool_State")
+	return an.CalleeName(info, call) == "(*sync.Pool)."+method && isRuntimePool(info, an.Receiver(call))
+}
+
+// isRuntimePool: e names the package-level sync.Pool that recycles *Runtime objects — recognised by what its New
+// function hands out, not by its name.
+func isRuntimePool(info *types.Info, e ast.Expr) bool {
+	id, ok := an.Unparen(e).(*ast.Ident)
+	if !ok {
+		return false
+	}
+	v, ok := an.ObjOf(info, id).(*types.Var)
+	if !ok || v.Pkg() == nil || v.Parent() != v.Pkg().Scope() {
+		return false
+	}
+	return runtimePoolName(info) == v.Name()
+}
+
+var runtimePoolCache sync.Map // *types.Info → name
+
+func runtimePoolName(info *types.Info) string {
+	if n, ok := runtimePoolCache.Load(info); ok {
+		return n.(string)
+	}
+	name := ""
+	// the initialiser sync.Pool{New: func() interface{} { return &Runtime{…} }} belongs to the pool variable declared
+	// last before it
+	for e, tv := range info.Types {
+		cl, ok := e.(*ast.CompositeLit)
+		if !ok || tv.Type == nil || an.TypeName(tv.Type) != "sync.Pool" {
+			continue
+		}
+		hands := false
+		ast.Inspect(cl, func(n ast.Node) bool {
+			if inner, ok := n.(*ast.CompositeLit); ok && inner != cl {
+				if t := info.Types[inner].Type; t != nil && an.TypeName(t) == "jet.Runtime" {
+					hands = true
+				}
+			}
+			return true
+		})
+		if hands {
+			name = closestVar(info, cl.Pos())
+		}
+	}
+	runtimePoolCache.Store(info, name)
+	return name
+}
+
+// closestVar: the package-level sync.Pool variable declared last before pos.
+func closestVar(info *types.Info, pos token.Pos) string {
+	best, name := token.NoPos, ""
+	for _, obj := range info.Defs {
+		v, ok := obj.(*types.Var)
+		if !ok || v.Pkg() == nil || v.Parent() != v.Pkg().Scope() || an.TypeName(v.Type()) != "sync.Pool" {
+			continue
+		}
+		if v.Pos() < pos && v.Pos() > best {
+			best, name = v.Pos(), v.Name()
+		}
+	}
+	return name
 }
 
 func runC10(c *an.Ctx) {
@@ -67,7 +128,7 @@ func runC10(c *an.Ctx) {
 	}
 	W := map[string][]store{}
 	for _, f := range p.Units() {
-		if f.Pkg != p.Jet || f.Body == nil || strings.HasPrefix(f.Name, "var:pool_State") {
+		if f.Pkg != p.Jet || f.Body == nil || strings.HasPrefix(f.Name, "var:"+runtimePoolName(info)) {
 			continue
 		}
 		an.InspectOwn(f, func(n ast.Node) bool {
@@ -233,7 +294,7 @@ func runC10(c *an.Ctx) {
 	var stVar types.Object
 	for _, st := range exec.Body.List {
 		an.Assigns(st, func(lhs, rhs ast.Expr, _ token.Token) {
-			if rhs != nil && strings.Contains(an.Str(rhs), "pool_State.Get()") {
+			if rc := callOf(stripAssert(rhs)); rhs != nil && rc != nil && isPoolCall(info, rc, "Get") {
 				if id, ok := lhs.(*ast.Ident); ok {
 					stVar = an.ObjOf(info, id)
 				}
@@ -697,4 +758,14 @@ func poolDiscipline(c *an.Ctx, rule string) {
 		}
 	}
 	c.Expect(rule, "sync.Pool Put sites", n, 2)
+}
+
+func stripAssert(e ast.Expr) ast.Expr {
+	if e == nil {
+		return nil
+	}
+	if ta, ok := an.Unparen(e).(*ast.TypeAssertExpr); ok {
+		return ta.X
+	}
+	return e
 }
